@@ -35,6 +35,9 @@ def shards(tier, seed):
         out += [{"kind": "safe", "seed": seed, "idx": i, "n": 6000} for i in range(2)]
     out.append({"kind": "axes"})
     out.append({"kind": "side", "seed": seed, "n": 60 if tier == "quick" else 300})
+    # the conversions called from several threads of one process at once (a web worker pool converting different colours):
+    # every call still returns its own colour's value
+    out += [{"kind": "threads", "seed": seed, "idx": i, "n": 2500 if tier == "quick" else 25000} for i in range(2 if tier == "quick" else 8)]
     return out
 
 
@@ -322,6 +325,53 @@ def work(shard, rec):
         aliases_after_invalid(rec, conv, rnd, shard["n"] // 4)
     elif k == "side":
         side(shard, rec, lib, cv, conv)
+    elif k == "threads":
+        threads(shard, rec, conv)
+
+
+def threads(shard, rec, conv):
+    import sys
+    import threading
+    f, inv, fs, invs = conv
+    rnd = G.rng("c10thr", shard["seed"], shard["idx"])
+    nthr = 8
+    work_lists = []
+    for t in range(nthr):
+        cols = [G.uniform(rnd) for _ in range(shard["n"])]
+        work_lists.append([(c, f(c)) for c in cols])          # single-threaded reference values, taken before any thread starts
+    bad = []
+    counts = [0] * nthr
+    old = sys.getswitchinterval()
+    sys.setswitchinterval(1e-6)
+    start = threading.Barrier(nthr)
+
+    def run(ti):
+        start.wait()
+        for c, lch in work_lists[ti]:
+            got_f = f(c)
+            got = inv(lch)
+            got_s = invs(lch) if invs else got
+            counts[ti] += 1
+            if got != c or got_s != c or got_f != lch:
+                bad.append((c, lch, got_f, got, got_s))
+                if len(bad) > 20:
+                    return
+    ths = [threading.Thread(target=run, args=(i,)) for i in range(nthr)]
+    try:
+        for t in ths:
+            t.start()
+        for t in ths:
+            t.join()
+    finally:
+        sys.setswitchinterval(old)
+    n = sum(counts)
+    rec.ev(n)
+    rec.count("threaded_roundtrips_checked", n)
+    rec.count("roundtrip_checked", n)
+    rec.count("threads_used", nthr)
+    for c, lch, got_f, got, got_s in bad[:3]:
+        rec.violation(f"with {nthr} threads converting different colours at once: {c} -> rgb_to_oklch {got_f} (alone {lch}) -> oklch_to_rgb {got} / safe {got_s}; "
+                      f"the round trip is not lossless", {"fn": "threads", "c": list(c), "seed": shard["seed"], "idx": shard["idx"], "n": shard["n"]})
 
 
 def side(shard, rec, lib, cv, conv):
@@ -372,6 +422,12 @@ def replay(case):
     cv = lib.mod("conversions")
     conv = tuple(getattr(cv, n, None) for n in ("rgb_to_oklch", "oklch_to_rgb", "rgb_to_oklch_safe", "oklch_to_rgb_safe"))
     rec = Rec()
+    if case["fn"] == "threads":
+        threads({"seed": case["seed"], "idx": case["idx"], "n": case["n"]}, rec, conv)
+        for v in rec.viol:
+            print("VIOLATED:", v["what"])
+        print("holds" if not rec.viol else "VIOLATED")
+        return not rec.viol
     if case["fn"] == "alias":
         t, v = tuple(case["invalid"]), tuple(case["valid"])
         try:
